@@ -91,7 +91,7 @@ CATALOG = [
     # second round of sub-agent mutations
     ("seed-C02_m5", "seeded", "C02_m5", [("R-BYTEINDEX", "SSA::alphabet#extent-in-SSA::load")]),
     ("seed-C02_m6", "seeded", "C02_m6", [("R-SENTINEL", "HashBdh::search#narrow-sentinel")]),
-    ("seed-C04_m4", "seeded", "C04_m4", [("R-EXTENT-FM", "SSA::occ"), ("R-EXTENT", "SSA::occ")]),
+    ("seed-C04_m4", "seeded", "C04_m4", [("R-EXTENT-FM", "SSA::occ")]),
     ("seed-C05_m4", "seeded", "C05_m4", [("R-SAMPLECOUNT", "sample-count")]),
     ("seed-C05_m5", "seeded", "C05_m5", [("R-STALESIZE", "stale-scanneable")]),
     ("seed-C06_m4", "seeded", "C06_m4", [("R-MIRROR", "SSA::save<->SSA::load")]),
